@@ -376,6 +376,39 @@ func runC07(res *lp.Result) {
 			}
 		}
 	}
+	// the CRC functions themselves against the model (and an independent reference): the detection theorems are about
+	// exactly these functions
+	{
+		var lines, expect, descr []string
+		n := 4000
+		if thorough() {
+			n = 60000
+		}
+		for i := 0; i < n; i++ {
+			d := rng.U64()
+			k := 1 + rng.Intn(8)
+			if k < 8 {
+				d &= 1<<(8*uint(k)) - 1
+			}
+			got := crc.ChecksumKoopman(d, k)
+			lines = append(lines, fmt.Sprintf("crc 24 %d %d", d, k))
+			expect = append(expect, fmt.Sprint(got))
+			descr = append(descr, "crc24")
+			if got != refCrc24(d, k) {
+				res.Add(lp.Finding{Kind: "disagreement", What: "ChecksumKoopman differs from the reference CRC-24 (the proved detection guarantees are about the reference function)",
+					Input: fmt.Sprintf("crc 24 %d %d", d, k), Impl: fmt.Sprint(got), Model: fmt.Sprint(refCrc24(d, k))})
+			}
+			if i%8 == 0 {
+				p := rng.Bytes(rng.Intn(120))
+				g32 := crc.ChecksumIEEE(p)
+				lines = append(lines, "crc 32 "+hx(p))
+				expect = append(expect, fmt.Sprint(g32))
+				descr = append(descr, "crc32")
+			}
+			res.Count("crc-differential")
+		}
+		finishAsk(res, lines, expect, descr)
+	}
 }
 
 func runC08(res *lp.Result) {
